@@ -55,6 +55,20 @@ def points(tier):
                     for c in C:
                         for r in R:
                             pts.append({"kind": "wrapflag", "d": d, "c": c, "r": r, "engine": eng, "sign": sign, "noise": None})
+            # a column of ISO dates (a hyphen in every data row) with and without a remark line that itself holds hyphens:
+            # the date stays one cell of one column
+            for c in (1, 2, 3):
+                for r in (1, 2, 3, 5, 22):
+                    for noise in [None] + [[kindn, k] for kindn in ("hcomment", "comment") for k in sorted({0, 1, r})]:
+                        pts.append({"kind": "dates", "d": c + 1, "c": c, "r": r, "engine": eng, "sign": sign, "noise": noise})
+            # two data sections in one file (two log runs): the later one wins; the curves stay rectangular, bound to its
+            # columns, and curves without a column in it are NaN of its row count
+            for d in (range(0, 5) if tier == "quick" else range(0, 7)):
+                for c1 in (1, 2, 3, 4):
+                    for c2 in (1, 2, 3, 4):
+                        for r1 in (1, 2, 3):
+                            for r2 in (1, 2, 3):
+                                pts.append({"kind": "twosections", "d": d, "c": c2, "r": r2, "c1": c1, "r1": r1, "engine": eng, "sign": sign, "noise": None})
             for c in W:
                 for comp in space.compositions(c):
                     for r in WR:
@@ -127,9 +141,21 @@ def build_text(pt):
     secs = [lasgen.version_section("2.0", wrap, dlm="COMMA" if pt["kind"] == "comma-empty" else None), lasgen.well_section("-999.25")]
     secs.append(lasgen.curve_section(curves))
     lines = ["~ASCII"]
+    if pt["kind"] == "twosections":
+        # the first run: other values (row numbers 50+), its own shape
+        for i in range(pt["r1"]):
+            lines.append("  ".join(str(cell(50 + i, j, pt["sign"])) for j in range(pt["c1"])))
+        lines.append("~ASCII second run")
     n_line = 0
+    if pt["kind"] == "dates":
+        curves = curves[:c] + [("DATE", "", "", "date of the run")]
+        secs[-1] = lasgen.curve_section(curves)
+        if pt["noise"] and pt["noise"][1] == 0:
+            lines.append({"hcomment": "# re-logged 2018-05-22 - run 1-2", "comment": "# remark"}[pt["noise"][0]])
     for i in range(r):
         toks = [str(cell(i, j, pt["sign"])) for j in range(c)]
+        if pt["kind"] == "dates":
+            toks.append("2018-05-%02d" % (i + 1))
         if pt["kind"] == "comma-empty":
             toks[pt["empty"]] = ""
             lines.append(",".join(toks))
@@ -142,7 +168,8 @@ def build_text(pt):
             lines.append("  ".join(toks))
         n_line += 1
         if pt["noise"] and pt["noise"][1] == n_line:
-            lines.append({"blank": "", "comment": "# comment", "icomment": "   # indented comment", "tcomment": "\t# c", "pcomment": "% remark line"}[pt["noise"][0]])
+            lines.append({"blank": "", "comment": "# comment", "icomment": "   # indented comment", "tcomment": "\t# c", "pcomment": "% remark line",
+                          "hcomment": "# re-logged 2018-05-22 - run 1-2"}[pt["noise"][0]])
     secs.append(lines)
     if pt.get("follows"):
         secs.append(["~Parameter", lasgen.item_line("P1", "U", "3.5", "a parameter"), lasgen.item_line("P2", "", "x y", "another")])
@@ -173,8 +200,11 @@ def check_point(pt):
     lens = [len(np.asarray(x.data)) for x in cur]
     if len(set(lens)) > 1:
         vio.append(V("not-rectangular", "equal lengths", lens))
-    if len(cur) != max(c, d):
-        vio.append(V("curve-count", max(c, d), {"n": len(cur), "keys": las.keys()}))
+    want_n = max(c, d, pt.get("c1", 0))
+    if pt["kind"] == "dates":
+        want_n = c + 1
+    if len(cur) != want_n:
+        vio.append(V("curve-count", want_n, {"n": len(cur), "keys": las.keys()}))
         return vio, nontriv, "ok", {}, 1
     if lens and lens[0] != r:
         vio.append(V("row-count", r, lens[0]))
@@ -185,12 +215,17 @@ def check_point(pt):
         if got != exp:
             vio.append(V("declared-metadata", list(exp), list(got)))
             break
-    for j in range(d, c):
+    for j in range(d, max(c, pt.get("c1", 0))):
         if cur[j].original_mnemonic.strip() != "":
             vio.append(V("surplus-column-named", "blank original mnemonic for curve %d" % j, cur[j].original_mnemonic))
             break
-    for j in range(max(c, d)):
+    for j in range(want_n):
         col = np.asarray(cur[j].data)
+        if pt["kind"] == "dates" and j == c:
+            got = [str(x) for x in col.tolist()]
+            if got != ["2018-05-%02d" % (i + 1) for i in range(r)]:
+                vio.append(V("date-column", ["2018-05-%02d" % (i + 1) for i in range(r)], got))
+            break
         if pt["kind"] == "comma-empty" and j == pt["empty"]:
             continue  # what an empty cell becomes is not specified; the other columns must stay in place
         if j < c:
@@ -206,7 +241,7 @@ def check_point(pt):
             if not (col.dtype.kind == "f" and np.all(np.isnan(col))):
                 vio.append(V("missing-column-not-nan", {"curve": j, "values": "all NaN"}, col.tolist()))
                 break
-    if not vio and d > c and r > 0:
+    if not vio and d > c and r > 0 and pt["kind"] not in ("twosections", "dates"):
         # the NaN filler of one declared-but-absent curve is that curve's own array: overwriting it in place changes
         # neither its siblings nor what a later read of the same text returns
         try:
@@ -225,7 +260,7 @@ def check_point(pt):
             np.asarray(cur[c].data)[...] = np.nan
         except Exception as e:
             vio.append(V("filler-edit-raises", "an in-place edit of a filler column and a re-read succeed", repr(e)))
-    if not vio and lens and len(set(lens)) == 1 and pt["kind"] != "comma-empty":
+    if not vio and lens and len(set(lens)) == 1 and pt["kind"] not in ("comma-empty", "dates"):
         try:
             data = las.data
             for j in range(min(c, len(cur))):
